@@ -204,14 +204,14 @@ class Gen:
         sph = self.p(0.7)
         coords = [('azimuth', -180, 180), ('elevation', -90, 90), ('distance', 0, 1)] if sph else [('X', -1, 1), ('Y', -1, 1), ('Z', -1, 1)]
         for i, (c, lo, hi) in enumerate(coords):
-            if i == 2 and self.p(0.5):
-                continue
-            e = Node('position', [('coordinate', c)], text=self.flt(lo, hi))
-            if i == 0 and self.p(0.25):
-                e.attr('screenEdgeLock', self.r.choice(['left', 'right']))
-            if i == 1 and self.p(0.25):
-                e.attr('screenEdgeLock', self.r.choice(['top', 'bottom']))
-            n.add(self.use(e))
+            # the third axis is optional; its bounds are parsed whether or not the value itself is present
+            if not (i == 2 and self.p(0.5)):
+                e = Node('position', [('coordinate', c)], text=self.flt(lo, hi))
+                if i == 0 and self.p(0.25):
+                    e.attr('screenEdgeLock', self.r.choice(['left', 'right']))
+                if i == 1 and self.p(0.25):
+                    e.attr('screenEdgeLock', self.r.choice(['top', 'bottom']))
+                n.add(self.use(e))
             for b in ('min', 'max'):
                 if self.p(0.25):
                     n.add(self.use(Node('position', [('coordinate', c), ('bound', b)], text=self.flt(lo, hi))))
